@@ -98,6 +98,39 @@ func c18Cases() []c18Case {
 				return nil
 			})
 		}},
+		// row-returning statements inside a transaction (in PrepareStmt mode they run
+		// on the transaction's copy of the prepared statement)
+		{"transaction-reads", func(db *gorm.DB) {
+			db.Transaction(func(tx *gorm.DB) error {
+				var it Item
+				tx.First(&it)
+				var n int64
+				tx.Model(&Item{}).Count(&n)
+				var os []Owner
+				tx.Preload("Pets").Find(&os)
+				func() {
+					defer func() { recover() }()
+					tx.Raw("SELECT count(*) FROM items").Row().Scan(&n)
+				}()
+				if rows, err := tx.Model(&Item{}).Rows(); err == nil {
+					rows.Close()
+				}
+				return tx.Transaction(func(tx2 *gorm.DB) error {
+					var its []Item
+					return tx2.FindInBatches(&its, 2, func(*gorm.DB, int) error { return nil }).Error
+				})
+			})
+		}},
+		{"begin-reads-rollback", func(db *gorm.DB) {
+			tx := db.Begin()
+			var its []Item
+			tx.Find(&its)
+			var names []string
+			tx.Model(&Item{}).Pluck("name", &names)
+			var pets []Pet
+			tx.Model(&Owner{ID: 1}).Association("Pets").Find(&pets)
+			tx.Rollback()
+		}},
 		{"begin-commit", func(db *gorm.DB) {
 			tx := db.Begin()
 			tx.Exec("UPDATE items SET age = 1")
